@@ -3,6 +3,7 @@ package c04
 import (
 	"fmt"
 	"os"
+	"os/exec"
 	"path/filepath"
 	"reflect"
 	"sort"
@@ -49,6 +50,9 @@ type setupPlan struct {
 	Defers int
 	Fail   string   // "" | error | fatal
 	Vars   []string // K=V additions made by Setup (Env.Setenv for even positions, appended to Env.Vars for odd ones)
+	// DeferFatal (fail=deferfatal): Setup succeeds, but the deferred function it registered last ends the run with
+	// T.FailNow after recording itself: the functions registered before it must still run, and the run counts as failed
+	DeferFatal bool
 }
 
 const planFile = "zz_setup_plan"
@@ -68,6 +72,10 @@ func planOf(files []tsmodel.ArchiveFile) setupPlan {
 	}
 	if p.Fail == "-" {
 		p.Fail = ""
+	}
+	if p.Fail == "deferfatal" {
+		p.Fail = ""
+		p.DeferFatal = p.Defers > 0
 	}
 	return p
 }
@@ -177,7 +185,14 @@ func checkBatch(c batchCase) *vt.Fail {
 			name := strings.TrimPrefix(filepath.Base(e.WorkDir), "script-")
 			for i := 0; i < plan.Defers; i++ {
 				tag := fmt.Sprintf("setup-%d", i)
-				e.Defer(func() { r.RecordDefer(name, tag) })
+				last := plan.DeferFatal && i == plan.Defers-1
+				t := e.T()
+				e.Defer(func() {
+					r.RecordDefer(name, tag)
+					if last {
+						t.FailNow()
+					}
+				})
 			}
 			for i, kv := range plan.Vars {
 				if k, v, _ := strings.Cut(kv, "="); i%2 == 0 {
@@ -218,6 +233,26 @@ func checkBatch(c batchCase) *vt.Fail {
 	_, opts.UseDir = tskit.LayoutFor(files[0].Data)
 	rr := tskit.RunInProcess(root, files, opts)
 	if rr.Elapsed > 30*time.Second {
+		// Every script of the batch was accepted by the reference interpreter as one that ends by itself within
+		// milliseconds. If one of them sat in a command until the safety deadline interrupted it although the machine is
+		// responsive (a process round trip takes well under 100 ms), the script was blocked by something the run did.
+		var blocked []string
+		for _, sub := range rr.Subs {
+			if strings.Contains(sub.Log, "test timed out while running command") {
+				blocked = append(blocked, sub.Name)
+			}
+		}
+		t0 := time.Now()
+		exec.Command("/bin/true").Run()
+		if probe := time.Since(t0); len(blocked) > 0 && probe < 100*time.Millisecond {
+			var logs []string
+			for _, sub := range rr.Subs {
+				if strings.Contains(sub.Log, "test timed out while running command") && len(logs) < 2 {
+					logs = append(logs, sub.Name+":\n"+sub.Log)
+				}
+			}
+			return vt.Failf("script-blocked-until-deadline", "in a batch of %d short scripts, %v did not end by themselves: they sat in a command until the harness's safety deadline interrupted them after %v (machine responsive: process round trip %v)\n%s", len(c.Scripts), blocked, rr.Elapsed.Round(time.Second), probe.Round(time.Millisecond), strings.Join(logs, "\n"))
+		}
 		rec.Infra("a batch of %d short scripts took %v and only ended through the harness's safety deadline: are background processes no longer stopped when a script ends?", len(c.Scripts), rr.Elapsed.Round(time.Second))
 		return nil
 	}
@@ -377,6 +412,12 @@ func checkBatch(c batchCase) *vt.Fail {
 		if sub.Verdict == "panic" {
 			return vt.Failf("panic-escaped-runt", "%s%s", sub.Panic, ctx)
 		}
+		if plan.DeferFatal {
+			// whatever the lines did, a deferred function failed the run
+			if want.Verdict != "fail" {
+				want.Verdict, want.SetupFail = "fail", true
+			}
+		}
 		if sub.Verdict != want.Verdict {
 			return vt.Failf("verdict-differs-from-alone", "in the batch script %s was reported %s, evaluated alone it is %s (failing lines %v %v)%s", name, sub.Verdict, want.Verdict, want.FailLines, want.FailClass, ctx)
 		}
@@ -511,7 +552,7 @@ func genBatch(t *rapid.T) batchCase {
 		if rapid.IntRange(0, 2).Draw(t, "setupplan") == 0 {
 			vars := rapid.SliceOfN(rapid.SampledFrom([]string{"SETUP_A=1", "SETUP_B=x_y", "HOME=/setup/home", "SETUP_A=2", "CANARY_TWO=from-setup", "TMPDIR=/setup/tmp"}), 0, 3).Draw(t, "setupvars")
 			sc.Files = append(sc.Files, tsmodel.ArchiveFile{Name: planFile, Data: fmt.Sprintf("defers=%d fail=%s vars=%s\n", rapid.IntRange(0, 3).Draw(t, "setupdefers"),
-				rapid.SampledFrom([]string{"-", "-", "error", "fatal"}).Draw(t, "setupfail"), strings.Join(vars, ","))})
+				rapid.SampledFrom([]string{"-", "-", "error", "fatal", "deferfatal"}).Draw(t, "setupfail"), strings.Join(vars, ","))})
 		}
 		c.Scripts = append(c.Scripts, sc)
 	}
